@@ -45,6 +45,17 @@ def analyse(sc, sp, r):
     q_setup = [i for i, h in enumerate(hist) if h[0] in ("done", "end") and h[1] == "setup_done"]
     start = vt[q_setup[-1]] if q_setup else 0.0
     too_slow = [i for i, h in enumerate(hist) if h[0] == "log" and "too slow" in h[2]]
+    if not sc["rt"].get("dyadic", True):
+        # 0.1 and 0.3 are not binary fractions: a step that the virtual clock begins *exactly* at its
+        # deadline can come out 1e-16 s "behind time" (k*0.3 computed two ways).  Reports within the
+        # tolerance are rounding dust of the exact clock, not lateness.
+        def _delta(msg):
+            m = re.search(r"- ([-+0-9.eE]+)s behind", msg)
+            return float(m.group(1)) if m else 1.0
+        dust = [i for i in too_slow if _delta(hist[i][2]) <= TOL]
+        if dust:
+            too_slow = [i for i in too_slow if i not in dust]
+            r.run.probe("too_slow_report_within_rounding_tolerance", len(dust))
     paced = False
     steps = {}
     for i, h in enumerate(hist):
@@ -82,7 +93,8 @@ def analyse(sc, sp, r):
                           "detail": {"outcome": list(oc)}})
         # (c) instant replies are never too slow
         if instant and all(s.get("transport") in ("stock", "gated", "remote", "cmd") for s in sc["sims"]):
-            if too_slow or strict_raise:
+            if too_slow or (strict_raise and sc["rt"].get("dyadic", True)):
+                # (a strict non-dyadic run that raised carries no delta: undecidable, left out)
                 n_conn = len(sc["conns"])
                 first = hist[too_slow[0]][2] if too_slow else oc[2]
                 viols.append({"kind": "instant_run_reported_too_slow",
